@@ -1,6 +1,7 @@
 #!/bin/bash
 # usage: seed_verify.sh <seed id, e.g. C01_a>   — confirms a seeded change independently and files it under /verif/seeded/<id>/
 id=$1
+dest=$2   # optional: directory (relative to the repo root) the top-level demo files belong to
 out=/tmp/seedout_$id
 prop=${id%%_*}
 wt=/tmp/sv_$id
@@ -10,10 +11,11 @@ git -C /repo worktree remove --force $wt 2>/dev/null
 git -C /repo worktree add --detach -q $wt main || exit 2
 cd $wt
 # place the demo files (directory structure under demo/ mirrors the repo; top-level files go to the repo root)
-place() { (cd $out/demo && find . -name '*_test.go' -o -name '*.go' | while read f; do mkdir -p $wt/$(dirname $f); cp $f $wt/$f; done); }
-unplace() { (cd $out/demo && find . -name '*.go' | while read f; do rm -f $wt/$f; done); }
+tgt() { f=$1; if [ -n "$dest" ] && [ "$(dirname $f)" = "." ]; then echo "$dest/$(basename $f)"; else echo "$f"; fi; }
+place() { (cd $out/demo && find . -name '*.go' | while read f; do t=$(tgt $f); mkdir -p $wt/$(dirname $t); cp $f $wt/$t; done); }
+unplace() { (cd $out/demo && find . -name '*.go' | while read f; do rm -f $wt/$(tgt $f); done); }
 place
-pkgs=$(cd $out/demo && find . -name '*.go' -exec dirname {} \; | sort -u | sed 's|^\./||; s|^\.$||' | while read d; do echo "./$d"; done | tr '\n' ' ')
+pkgs=$(cd $out/demo && find . -name '*.go' | while read f; do dirname $(tgt $f); done | sort -u | sed 's|^\./||; s|^\.$||' | while read d; do echo "./$d"; done | tr '\n' ' ')
 run_demo() { go test -vet=off -count=1 -run 'Seed|seed' $pkgs 2>&1 | tail -15; return ${PIPESTATUS[0]}; }
 echo "== demo on unchanged code (must pass)"; run_demo; r0=$?
 if ! git apply --check $out/patch.diff 2>/dev/null; then echo "patch does not apply cleanly, trying 3-way"; fi
